@@ -30,7 +30,7 @@ CONFIG = {
                   "its exploration context from the real registers is checked by K (ecx pc, on_step pc/line) and by the oracle (raw PTRACE_GETREGS). "
                   "Signals and watchpoints interrupting a step are not modelled (single-threaded, signal-free debuggees).",
     "trivial_answers": ["ok", "ok p=-", "none p=-", "err p=-", "err", "bad-op", "", "after-exit"],
-    "runs": {"quick": [{"n": 14, "timeout": 1500}], "thorough": [{"n": 400, "timeout": 20000}]},
+    "runs": {"quick": [{"n": 12, "timeout": 1500}], "thorough": [{"n": 400, "timeout": 20000}]},
     "shrinkable": False,
     "assumptions": [
         "deterministic single-threaded debuggee without int3 of its own and without signals; patches only at instruction starts",
